@@ -10,7 +10,7 @@ import fcntl
 
 REPO = os.environ.get("FSV_REPO", "/repo")
 VERIF = os.path.dirname(os.path.dirname(os.path.abspath(__file__)))
-TARGET = os.path.join(VERIF, ".target")
+TARGET = os.environ.get("FSV_TARGET") or os.path.join(VERIF, ".target")
 BINARY = os.path.join(TARGET, "release", "fselect")
 SHIM_SRC = os.path.join(VERIF, "fsv", "clockshim.c")
 SHIM_SO = os.path.join(TARGET, "clockshim.so")
